@@ -48,9 +48,12 @@ def main():
             # demo on mutated tree / clean tree
             demo = os.path.join(d, "demo.cpp")
             if os.path.exists(demo):
-                r = sh("g++ -std=c++17 -O2 -march=native -I%s/include %s -o %s/demo_m && timeout 60 %s/demo_m" % (wt, demo, wt, wt))
+                import re
+                first = open(demo).readline()
+                xf = " ".join(re.findall(r"(?<!\S)-D[A-Za-z_0-9=]+", first))          # e.g. -DXSIMD_VERIF=1 named in the demo's compile line
+                r = sh("g++ -std=c++17 -O2 -march=native %s -I%s/include %s -o %s/demo_m && timeout 60 %s/demo_m" % (xf, wt, demo, wt, wt))
                 res["demo_mutated_rc"] = r.returncode
-                r = sh("g++ -std=c++17 -O2 -march=native -I/repo/include %s -o %s/demo_c && timeout 60 %s/demo_c" % (demo, wt, wt))
+                r = sh("g++ -std=c++17 -O2 -march=native %s -I/repo/include %s -o %s/demo_c && timeout 60 %s/demo_c" % (xf, demo, wt, wt))
                 res["demo_clean_rc"] = r.returncode
             if suite:
                 r = sh("cd %s && cmake -G Ninja -B _build -DBUILD_TESTS=ON -DCMAKE_BUILD_TYPE=RelWithDebInfo -DCMAKE_CXX_FLAGS=-Wno-error -DTARGET_ARCH=native -DXSIMD_ENABLE_WERROR=OFF . >/dev/null && cmake --build _build -j%s 2>&1 | tail -1 && ./_build/test/test_xsimd | tail -2" % (wt, os.environ.get("SEEDED_J", "8")))
